@@ -342,6 +342,7 @@ func main() {
 	emitSites(root, server, *out)
 	emitTopics(root, *out)
 	emitValidators(root, *out)
+	emitAddenda(root, *out)
 
 	// summary for the driver
 	fmt.Printf("gofacts: ok unrecognised=%d\n", len(unrecognised))
